@@ -361,18 +361,35 @@ type rtok struct {
 	pos, end int
 }
 
+// lexState is the lexer's control state before a token is read.
+type lexState struct {
+	cur token.TokenKind
+	dot bool
+}
+
 // recoveryLex lexes the whole input with the recovery-mode step (overlay hook).
 func recoveryLex(s string) []rtok {
+	out, _ := recoveryLexFrom(s, lexState{})
+	return out
+}
+
+// recoveryLexFrom lexes s in recovery mode starting in control state st; it also
+// returns the control state before each token.
+func recoveryLexFrom(s string, st lexState) ([]rtok, []lexState) {
 	l := &memefish.Lexer{File: &token.File{Buffer: s}}
+	l.VerifSetCtl(st.cur, st.dot, 0)
 	var out []rtok
+	var states []lexState
 	for i := 0; i < len(s)+2; i++ {
+		_, cur, dot, _ := l.VerifCtl()
 		l.VerifStepRecover()
 		if l.Token.Kind == token.TokenEOF {
 			break
 		}
+		states = append(states, lexState{cur, dot})
 		out = append(out, rtok{l.Token.Kind, l.Token.Raw, int(l.Token.Pos), int(l.Token.End)})
 	}
-	return out
+	return out, states
 }
 
 func checkBadNodes(e *Entry, s string, res ParseResult) (viol map[string]string, nbad int) {
@@ -381,6 +398,7 @@ func checkBadNodes(e *Entry, s string, res ParseResult) (viol map[string]string,
 		return
 	}
 	var ref []rtok
+	var refStates []lexState
 	type span struct {
 		p, e int
 		w    string
@@ -400,7 +418,7 @@ func checkBadNodes(e *Entry, s string, res ParseResult) (viol map[string]string,
 			}
 			_ = i
 			if ref == nil {
-				ref = recoveryLex(s)
+				ref, refStates = recoveryLexFrom(s, lexState{})
 			}
 			np, ne := int(b.NodePos), int(b.NodeEnd)
 			if np < 0 || ne < np || ne > len(s) {
@@ -444,7 +462,16 @@ func checkBadNodes(e *Entry, s string, res ParseResult) (viol map[string]string,
 			// SQL() re-lexes to the same kinds and spellings
 			var sql string
 			if pv, _ := explore.Try(func() { sql = b.SQL() }); pv == nil {
-				re := recoveryLex(sql)
+				// re-lex in the control state the lexer was in where the Bad node starts
+				// (after "ident ." a digit run is an identifier; a Bad node's text cannot carry that context)
+				var st lexState
+				for i, t := range ref {
+					if t.pos >= np {
+						st = refStates[i]
+						break
+					}
+				}
+				re, _ := recoveryLexFrom(sql, st)
 				if !sameKindsRaws(re, got) {
 					viol["C10/sql-relex/"+wrapper] = fmt.Sprintf("%s(%q): Bad node SQL() = %q re-lexes to %s, Tokens are %s", e.Name, s, sql, fmtToks(re), fmtToks(got))
 				}
@@ -478,7 +505,12 @@ func sameKindsRaws(a, b []rtok) bool {
 		return false
 	}
 	for i := range a {
-		if a[i].kind != b[i].kind || a[i].raw != b[i].raw {
+		if a[i].raw != b[i].raw {
+			return false
+		}
+		// a recorded <bad> token may be bad only because of what follows it outside the
+		// Bad node ("1" glued to "UNION"); stand-alone its spelling lexes to a proper kind.
+		if a[i].kind != b[i].kind && b[i].kind != token.TokenBad {
 			return false
 		}
 	}
